@@ -1401,6 +1401,25 @@ def _registry(ctx: Ctx, p) -> None:
         stored_leaves = {norm(y) for s_ in stores if s_.meta.get('value') is not None for y in [s_.meta['value']] + _leaves(g, s_, s_.meta['value'])}
         return bool(lfs) and all(one(x) for x in lfs)
     ok = any(isinstance(a.ast.value, ast.Call) and _is_registered(a, a.ast.value.func) for a in uses)
+    # the delegated call hands on the wrapper's own argument and key
+    wparams = list(wrapper.params)
+    kwonly = [a_.arg for a_ in wrapper.node.args.kwonlyargs]
+    for a in uses:
+        c_ = a.ast.value
+        if not (isinstance(c_, ast.Call) and _is_registered(a, c_.func)):
+            continue
+        pos = [resolve(g, a, x) for x in c_.args]
+        kws = {k.arg: resolve(g, a, k.value) for k in c_.keywords if k.arg}
+        arg_ok = bool(wparams) and bool(pos) and isinstance(pos[0], ast.Name) and pos[0].id == wparams[0]
+        key_name = kwonly[0] if kwonly else (wparams[1] if len(wparams) > 1 else None)
+        kv = kws.get(key_name) if key_name else None
+        if kv is None and len(pos) > 1:
+            kv = pos[1]
+        key_ok = key_name is None or (isinstance(kv, ast.Name) and kv.id == key_name)
+        ctx.check('C15-R3', f'the delegated call {norm(c_)} forwards ({wparams[0] if wparams else None}, {key_name})', g.loc(a), arg_ok and key_ok,
+                  'argument and key reach the loop\'s batcher unchanged',
+                  'the decorated form drops or replaces the argument / the key: calls that should share a key (or must not) are keyed differently from the direct form',
+                  construct=construct_key(wrapper.qualname, 'delegation arguments'))
     ctx.check('C15-R3', f'the call is delegated to the registered batcher {sorted(bvars)}', f'{FILE}:{wrapper.lineno}', ok,
               'uses this loop\'s batcher', 'the awaited batcher is not the one registered for this loop',
               construct=construct_key(wrapper.qualname, 'registry use'))
